@@ -7,7 +7,6 @@ Import ListNotations.
 Local Open Scope Z_scope.
 
 Inductive finding :=
-| F_uidsearch_shape     (* UID SEARCH UID <set>: only a:b with a<=b is implemented *)
 | F_noop_notices.       (* NOOP/IDLE derive their notices from the count difference only *)
 
 Definition zlist_eqb (a b : list Z) : bool :=
@@ -33,13 +32,6 @@ Definition copy_ok (s : seqset) (n : Z) (got : option (list Z)) : bool :=
   end.
 
 (** ---- classification ---- *)
-Definition classify_uidsearch (s : seqset) : option finding :=
-  match s with
-  | [Range (Num a) (Num b)] => if b <? a then Some F_uidsearch_shape else None
-  | [] => None
-  | _ => Some F_uidsearch_shape
-  end.
-
 (** COPY may repeat a message when items of the set overlap (the parser
     returns a list): the number of copies lies between the size of the
     denoted set and the sum of the sizes of its items *)
